@@ -159,6 +159,26 @@ def install(it):
         return Opaque("WITHHELD:" + name)
     reg("withheld", withheld)
 
+    def snapshot(it_, ctx, x):
+        """deep structural copy of a value (lists, dicts, arrays), callables/objects by identity"""
+        return _snap(x)
+    reg("snapshot", snapshot)
+
+    def start_read_log(it_, ctx):
+        ctx.read_log = []
+    reg("start_read_log", start_read_log)
+
+    def stop_read_log(it_, ctx, o=None):
+        log = ctx.read_log or []
+        ctx.read_log = None
+        names = []
+        for ident, name in log:
+            if o is None or ident == o.ident:
+                if name not in names:
+                    names.append(name)
+        return names
+    reg("stop_read_log", stop_read_log)
+
     def cover(it_, ctx, name):
         ctx.covers.add(name)
     reg("cover", cover)
@@ -304,6 +324,18 @@ def install(it):
     G["NATIVE"] = False
 
 
+def _snap(x):
+    if isinstance(x, list):
+        return [_snap(e) for e in x]
+    if isinstance(x, tuple):
+        return tuple(_snap(e) for e in x)
+    if isinstance(x, dict):
+        return {k: _snap(v) for k, v in x.items()}
+    if isinstance(x, (Vec, SymArr)):
+        return x.copy()
+    return x
+
+
 def deep_eq(it, ctx, a, b):
     if isinstance(a, (list, tuple)) and isinstance(b, (list, tuple)):
         if len(a) != len(b):
@@ -320,6 +352,14 @@ def deep_eq(it, ctx, a, b):
         if a2.shape != b2.shape:
             return False
         return z_and(*[deep_eq(it, ctx, x, y) for x, y in zip(a2.data, b2.data)]) if a2.data else True
+    if isinstance(a, SymArr) or isinstance(b, SymArr):
+        a2 = a if isinstance(a, SymArr) else arrays.to_symarr(a if isinstance(a, Vec) else arrays.vec_from_nested(a))
+        b2 = b if isinstance(b, SymArr) else arrays.to_symarr(b if isinstance(b, Vec) else arrays.vec_from_nested(b))
+        i = ctx.fresh("i_eq", I)
+        ctx.inputs[str(i)] = i
+        same = num_cmp("==", a2.n, b2.n)
+        inb = z_and(num_cmp(">=", i, 0), num_cmp("<", i, a2.n))
+        return z_and(same, z_or(z_not(inb), deep_eq(it, ctx, a2.elem(i), b2.elem(i))))
     if isinstance(a, Cx) or isinstance(b, Cx):
         return num_cmp("==", to_cx(a), to_cx(b))
     if is_scalar(a) and is_scalar(b):
